@@ -22,6 +22,11 @@ func (api *HTTP) configRevision() uint64 {
 }
 
 func (api *HTTP) applyConfig(revision uint64, body string) error {
+	// Comparing the revision and applying the update must not be interleaved
+	// with another update, otherwise two updates which name the same
+	// revision are both accepted (and the first one is silently overwritten).
+	api.configSem <- struct{}{}
+	defer func() { <-api.configSem }()
 	if got, want := revision, api.configRevision(); got != want {
 		return fmt.Errorf("Revision mismatch (got %d, want %d). Try again.", got, want)
 	}
